@@ -465,6 +465,8 @@ func checkC09(c *Ctx, r *Report) {
 	packMapThreaded(c, r, "C09.R4.pack-map", "Truncate's size walk under-counts and the truncated reply exceeds the requested size")
 	borrow(c, r, c08LenForm, "C08.R1.len-form", "C09.R3.len-form", 70, "the length method of every type predicts what its packer writes (the size walk of Truncate relies on it)", nil, "Truncate's budget is short and the truncated reply exceeds the requested size")
 	bitmapLengthAgreement(c, r, "C09.R3.bitmap-length", "Truncate's size walk is short for such records and the truncated reply exceeds the requested size")
+	r.rule("C09.R4.stop-only-on-overflow", 1, "truncateLoop leaves its loop early only where the record just measured does not fit")
+	stopOnlyOnOverflow(c, r, "C09.R4.stop-only-on-overflow")
 }
 
 // edgeDominatesAny: one of the If's edges edge-dominates target.
